@@ -10,6 +10,8 @@
 //
 //	s := vroute.Tier1()                                    // every single rule, 1-2 '&&'-joined conditions, boundary alphabets
 //	s := vroute.Tier2(n, perRule, vroute.Tier2Outbounds)   // all programs of exactly n rules over three atoms A,B,C (4 rotations)
+//	s := vroute.Tier2Over(vroute.AllRotations(), n, perRule, outs)   // the same plus RotationMacIP (mac x sip x dip)
+//	s := vroute.Tier3(n, nValues)                          // all programs of n single-condition rules [!]f(v): merge/sort/dedup triggers
 //	s := vroute.Concat("name", s1, s2)
 //	for i := 0; i < s.Len(); i++ { p := s.At(i) ... }     // At is pure: safe from r.ParallelFor
 //	p.ConfigText()    // complete config document (global{} group{g1,g2} routing{...}); values quoted where the grammar needs it
